@@ -299,9 +299,11 @@ def _report(ctx, name, s):
         s.nrec, name, s.n, len(s.fails), len({f[0] for f in s.fails})))
 
 
-def _model_and_replay(ctx, module, cfg, func, need):
+def _model_and_replay(ctx, module, cfg, func, need, actions):
     s = Stream(func)
-    r = ctx.tlc(module, cfg, on_record=s.feed, keep_records=False, timeout=3000, coverage=False)
+    # thorough: per-action coverage from TLC, an action never taken is a machinery failure (vacuity guard)
+    r = ctx.tlc(module, cfg, on_record=s.feed, keep_records=False, timeout=3000, coverage=not ctx.quick,
+                require_actions=() if ctx.quick else actions)
     s.finish()
     if s.nrec == 0 or r.distinct < need:
         raise MachineryError("%s/%s: vacuous run (%d records, %d states)" % (module, cfg, s.nrec, r.distinct))
@@ -544,11 +546,14 @@ def run(ctx):
 
     # 1+2. model checking and spec -> code
     if want("num"):
-        _model_and_replay(ctx, "MC_ScriptNum", "MC_ScriptNum_q" if q else "MC_ScriptNum_t", _replay_num, 100000)
+        _model_and_replay(ctx, "MC_ScriptNum", "MC_ScriptNum_q" if q else "MC_ScriptNum_t", _replay_num, 100000,
+                          ("Bytes", "Blocks", "Ints", "Pows"))
     if want("push"):
-        _model_and_replay(ctx, "MC_ScriptPush", "MC_ScriptPush_q" if q else "MC_ScriptPush_t", _replay_push, 100000)
+        _model_and_replay(ctx, "MC_ScriptPush", "MC_ScriptPush_q" if q else "MC_ScriptPush_t", _replay_push, 100000,
+                          ("Choose", "Cut", "Alt", "Raw", "Begin", "DecStep", "NextInstr"))
     if want("asm"):
-        s = _model_and_replay(ctx, "MC_Disasm", "MC_Disasm_q" if q else "MC_Disasm_t", _replay_asm, 10000)
+        s = _model_and_replay(ctx, "MC_Disasm", "MC_Disasm_q" if q else "MC_Disasm_t", _replay_asm, 10000,
+                              ("Ops", "Pushes", "Alts"))
         ctx.extra["text_form"] = {k: v for k, v in s.stats.items() if not k.startswith("text_differs")}
         diff = [k for k in s.stats if k.startswith("text_differs")]
         if diff:
@@ -616,7 +621,8 @@ def run(ctx):
         e["script"] = drv.rle_cat(e["script"], [{"n": 1, "b": 0}])
         res = validate(ctx, [gi, b1, gs, b2, b3])
         ctx.selftest("trace_rejects_corrupted_field", res[0] is None and res[2] is None and None not in (res[1], res[3], res[4]))
-    ctx.exhaustive = False
+    # every case TLC enumerates within the constants of the cfg is replayed (nothing is sampled); beyond them: traces
+    ctx.exhaustive = True
 
 
 def replay(ctx, obj):
